@@ -213,6 +213,11 @@ func (s *socket) onPacket(data *packet.Packet) {
 	// export packet event
 	socket_log.Debug(`received packet %s`, data.Type)
 	s.Emit("packet", data)
+	// the close event is final: a listener that closed the session (here, or
+	// between the events below) has seen the last of it
+	if s.ReadyState() == "closed" {
+		return
+	}
 
 	switch data.Type {
 	case packet.PING:
@@ -225,6 +230,9 @@ func (s *socket) onPacket(data *packet.Packet) {
 		socket_log.Debug("got ping")
 		s.pingTimeoutTimer.Load().Refresh()
 		s.sendPacket(packet.PONG, nil, nil, nil)
+		if s.ReadyState() == "closed" {
+			return
+		}
 		s.Emit("heartbeat")
 	case packet.PONG:
 		if s.protocol == 3 {
@@ -239,6 +247,9 @@ func (s *socket) onPacket(data *packet.Packet) {
 		s.OnClose("parse error")
 	case packet.MESSAGE:
 		s.Emit("data", data.Data)
+		if s.ReadyState() == "closed" {
+			return
+		}
 		s.Emit("message", data.Data)
 	}
 }
